@@ -397,6 +397,12 @@ func (s *scn) afterBlockCalls(h uint64, txs []*pb.BxhTransaction, metas []*txMet
 				s.vio("C17", "internal-entry-point-callable", mt.call.contract+"."+mt.call.name, "block %d tx %d: %s.%s(%s) called directly by an external account (%s) succeeded; it exists for contract-to-contract use only", h, i, mt.call.contract, mt.call.name, mt.callArgs, role)
 			}
 		}
+		if role == "formeradmin" && inList(privileged, mt.call.contract, mt.call.name) {
+			s.res.Count("calls_privileged_by_former_chain_admin")
+			if ok {
+				s.vio("C17", "privileged-operation-by-former-chain-admin", mt.call.contract+"."+mt.call.name, "block %d tx %d: %s.%s(%s) succeeded for an account that was removed from the chain's admins by an approved update", h, i, mt.call.contract, mt.call.name, mt.callArgs)
+			}
+		}
 		if role == "outsider" && inList(privileged, mt.call.contract, mt.call.name) {
 			s.res.Count("calls_privileged_by_outsider")
 			if ok {
@@ -585,6 +591,78 @@ func (s *scn) applyZeroSwitch(st CStep) {
 			continue
 		}
 		s.add(s.b.bvmAddr(o, types.NewAddressByStr(mi.addr), mi.name, args...), &txMeta{kind: "call", sender: o, note: mi.contract + "." + mi.name + "/outsider", call: mi, callArgs: "open proposal " + pid})
+		s.flush()
+	}
+}
+
+// applyAdminSwap: the admin X of an appchain adds a second admin Y through an approved update, Y then submits an admin
+// list without X (approved): X is no longer an admin of the chain. Afterwards X sends the operations reserved to the
+// chain's own admin; they must fail for it as for everybody else ("formeradmin" in the call oracles).
+func (s *scn) applyAdminSwap(st CStep) {
+	find := func(c, n string) *methodInfo {
+		for i, m := range s.surface() {
+			if m.contract == c && m.name == n {
+				return &s.surface()[i]
+			}
+		}
+		return nil
+	}
+	c := s.chains[st.A%len(s.chains)]
+	if c.swapped {
+		return
+	}
+	x := c.admin
+	y := keyFor(fmt.Sprintf("second-admin-of-%s", c.id))
+	S := pb.String
+	// Y needs funds for its fees
+	s.flush()
+	s.add(s.b.transfer(s.cfg.World.adminKey(0), y.Addr, "1000000000000000000000"), &txMeta{kind: "setup", sender: s.cfg.World.adminKey(0)})
+	s.flush()
+	if !s.govApprove(x, constant.AppchainMgrContractAddr, "update-chain/chainadmin/"+c.id, c.id, "UpdateAppchain", S(c.id), S("name-"+c.id), S("desc"), pb.Bytes(nil), S(x.Addr.String()+","+y.Addr.String()), S("reason")) {
+		return
+	}
+	if !s.govApprove(y, constant.AppchainMgrContractAddr, "update-chain/chainadmin/"+c.id, c.id, "UpdateAppchain", S(c.id), S("name-"+c.id), S("desc"), pb.Bytes(nil), S(y.Addr.String()), S("reason")) {
+		return
+	}
+	// did the node take the new list? (read back, not assumed)
+	rcs := s.reps[0].viewCall(viewTx(s.users[0], constant.AppchainMgrContractAddr, "GetAdminByChainId", S(c.id)))
+	var admins []string
+	if len(rcs) != 1 || rcs[0] == nil || rcs[0].Status != pb.Receipt_SUCCESS || json.Unmarshal(rcs[0].Ret, &admins) != nil {
+		return
+	}
+	list := strings.ToLower(strings.Join(admins, ","))
+	if strings.Contains(list, strings.ToLower(x.Addr.String())) || !strings.Contains(list, strings.ToLower(y.Addr.String())) {
+		return // the replacement did not go through (refused or still pending)
+	}
+	c.swapped, c.admin = true, y
+	s.res.Count("probe_chain_admin_replaced")
+	// X's account is free again: it is no longer one of the parties whose bookkeeping records the outsider must not touch
+	for k := range s.setupOccupancy {
+		if strings.HasSuffix(strings.ToLower(k), strings.ToLower(x.Addr.String())) {
+			delete(s.setupOccupancy, k)
+		}
+	}
+	sv := c.services[0]
+	calls := []struct {
+		contract, name string
+		args           []*pb.Arg
+	}{
+		{"ServiceManager", "RegisterService", []*pb.Arg{S(c.id), S("sfa"), S("nm-fa"), S("CallContract"), S("intro"), pb.Uint64(1), S(""), S("details"), S("reason")}},
+		{"ServiceManager", "LogoutService", []*pb.Arg{S(c.id + ":" + sv.id), S("reason")}},
+		{"RuleManager", "UpdateMasterRule", []*pb.Arg{S(c.id), S(happyRule), S("reason")}},
+		{"RuleManager", "LogoutRule", []*pb.Arg{S(c.id), S(happyRule)}},
+		{"AppchainManager", "UpdateAppchain", []*pb.Arg{S(c.id), S("name-by-former-admin"), S("desc"), pb.Bytes(nil), S(x.Addr.String()), S("reason")}},
+		{"AppchainManager", "LogoutAppchain", []*pb.Arg{S(c.id), S("reason")}},
+	}
+	for j, cl := range calls {
+		if (st.N>>uint(j))&1 == 0 && j != st.B%len(calls) {
+			continue
+		}
+		mi := find(cl.contract, cl.name)
+		if mi == nil || len(mi.in) != len(cl.args) {
+			continue
+		}
+		s.add(s.b.bvmAddr(x, types.NewAddressByStr(mi.addr), mi.name, cl.args...), &txMeta{kind: "call", sender: x, note: mi.contract + "." + mi.name + "/formeradmin", call: mi, callArgs: "chain " + c.id})
 		s.flush()
 	}
 }
